@@ -111,6 +111,7 @@ def main(ctx, replay=None):
         cases += gen.random_cases(t, 350 if quick else 6000)
     cases += gen.chain_matrix()
     cases += gen.under_load()
+    cases += gen.dups()
     outs = restlib.run_cases(ctx, fuzzbin, cases, tag="fz")
 
     def classes(cases_, outs_):
